@@ -21,6 +21,7 @@ import (
 	"github.com/hydraide/hydraide/app/core/settings/setting"
 	"github.com/hydraide/hydraide/app/name"
 	"github.com/hydraide/hydraide/app/panichandler"
+	"github.com/hydraide/hydraide/app/verifhook"
 )
 
 type Hydra interface {
@@ -394,6 +395,7 @@ func (h *hydra) SummonSwamp(ctx context.Context, islandID uint64, swampName name
 	// immediately
 	result, _ := h.summoningSwamps.LoadOrStore(swampName.Get(), newSwampWaiter())
 	waiter, _ := result.(*SwampWaiter)
+	verifhook.Point("hydra.summon.gotWaiter")
 
 	// lezárjuk a következő kódrészt, így csak egyetlen rutin futhatja egyszerre egy domain néven belül
 	waiter.cond.L.Lock()
@@ -413,6 +415,7 @@ func (h *hydra) SummonSwamp(ctx context.Context, islandID uint64, swampName name
 	waiter.cond.L.Unlock()
 
 	defer func() {
+		verifhook.Point("hydra.summon.beforeRelease")
 		// Swamp véglegesítése után
 		waiter.cond.L.Lock()
 		waiter.ready = false
@@ -498,7 +501,9 @@ func (h *hydra) SummonSwamp(ctx context.Context, islandID uint64, swampName name
 
 			// The swamp does not exist in memory, so we need to create it.
 			// During creation, other processes trying to access this swamp will still have to wait.
+			verifhook.Point("hydra.summon.beforeCreate")
 			swampObject = h.createNewSwamp(islandID, swampName)
+			verifhook.Note("hydra.swamp.created", swampName.Get())
 
 			// Store the swamp in the hydra map, which is a sync.Map.
 			h.swamps.Store(swampName.Get(), swampObject)
@@ -1074,5 +1079,6 @@ func (h *hydra) infoCallbackFunction(si *swamp.Info) {
 
 // closeEventCallbackFunction removes the swamp from the opened swamps map
 func (h *hydra) closeEventCallbackFunction(swampName name.Name) {
+	verifhook.Note("hydra.swamp.closed", swampName.Get())
 	h.swamps.Delete(swampName.Get())
 }
